@@ -72,6 +72,69 @@ pub fn exec(p: &[&str], scratch: &str) -> String {
             }
             format!("{}|{}{}", tr.join(","), hex(&std::fs::read(&out).unwrap()), layout)
         }
+        "csched" => {
+            // csched k W limit sched recs : chunked counting under a schedule.  limit = the number the workers compare
+            // total_kmers_so_far with; the memory ceiling is chosen so that (1e9 * mem / 8) as u64 == limit.
+            let d = fresh(scratch);
+            let recs = unhex_list(p[5]);
+            let inp = serialise(&recs, "fa", 0, &d, "in");
+            let od = format!("{}/out", d); std::fs::create_dir_all(&od).unwrap();
+            let w: usize = p[2].parse().unwrap();
+            let limit: u64 = p[3].parse().unwrap();
+            let mem = 8.0 * (limit as f64 + 0.5) / 1_000_000_000_f64;
+            if (1_000_000_000_f64 * mem / 8.0) as u64 != limit { return "BAD-LIMIT".into(); }
+            let mut c = counter::CountComputer::new(inp, od.clone(), p[1].parse().unwrap());
+            c.set_threads(w);
+            c.set_max_memory(mem);
+            verif::take_log();
+            verif::set_logging(true);
+            verif::set_schedule(w, parse_sched(p[4]));
+            c.count();
+            verif::clear_schedule();
+            verif::set_logging(false);
+            let log = verif::take_log();
+            // trace: the arrival of a worker at a point tells how its previous action ended
+            let mut at: Vec<&str> = vec!["start"; w];
+            let mut arg_at: Vec<i64> = vec![0; w];
+            let mut holding: Vec<Option<usize>> = vec![None; w];
+            let mut taken = 0usize;
+            let mut tr: Vec<String> = vec![];
+            let mut note = "";
+            for e in &log {
+                if let Ev::Sched { worker, point, arg } = e {
+                    let i = *worker;
+                    match (at[i], *point) {
+                        ("check", "take") => tr.push(format!("{}:c+", i)),
+                        ("check", "exit") => tr.push(format!("{}:c-", i)),
+                        ("take", "exit") => tr.push(format!("{}:t-", i)),
+                        ("take", "inc") | ("take", "add") => { tr.push(format!("{}:t{}", i, taken)); holding[i] = Some(taken); taken += 1; }
+                        ("inc", "inc") | ("inc", "add") => tr.push(format!("{}:i{}", i, arg_at[i])),
+                        ("add", "check") => { tr.push(format!("{}:a", i)); holding[i] = None; }
+                        _ => {}
+                    }
+                    if *point == "add" { if holding[i] != Some(*arg as usize) { note = "|records-not-taken-in-order"; } }
+                    if *point == "start" || *point == "exit" { at[i] = "start"; } else { at[i] = point; }
+                    if *point == "exit" { at[i] = "start"; }
+                    arg_at[i] = *arg;
+                }
+            }
+            let (chunks, parts) = c.verif_chunks_parts();
+            let mut bags: Vec<String> = vec![];
+            for ch in 0..chunks {
+                let mut m: std::collections::BTreeMap<u64, u64> = std::collections::BTreeMap::new();
+                for pt in 0..parts {
+                    let f = format!("{}/temp_kmers.part_{}_chunk_{}", od, pt, ch);
+                    for l in String::from_utf8_lossy(&std::fs::read(&f).unwrap_or_default()).lines() {
+                        let mut it = l.split('\t');
+                        let k: u64 = it.next().unwrap_or("0").parse().unwrap_or(0);
+                        let v: u64 = it.next().unwrap_or("0").parse().unwrap_or(0);
+                        *m.entry(k).or_insert(0) += v;
+                    }
+                }
+                bags.push(m.iter().map(|(k, v)| format!("{}:{}", k, v)).collect::<Vec<_>>().join(","));
+            }
+            format!("{}|{}{}", tr.join(","), bags.join(";"), note)
+        }
         "hooks" => {
             // hooks <inner file-level op ...>: run the inner op with the event log on; every logged unchecked index
             // must lie inside its buffer, every mapped write inside the mapping, and the mapped rows must tile the
